@@ -840,6 +840,8 @@ func (h *histRun) checkQuiescent(final bool) {
 					_, srid, _ := methodParts(s.Method)
 					if h.hasNote("sub.disposePending", c.CID, srid) || (h.reqTarget[c.Idx][s.ID] != "" && h.hasNote("sub.disposePending", c.CID, h.reqTarget[c.Idx][s.ID])) {
 						sig = "noResponse.disposePending"
+					} else if h.hasNote("sub.onLoadedDisposed", c.CID, srid) || (h.reqTarget[c.Idx][s.ID] != "" && h.hasNote("sub.onLoadedDisposed", c.CID, h.reqTarget[c.Idx][s.ID])) {
+						sig = "noResponse.onLoadedDisposed"
 					}
 					h.viol(Viol{Prop: "C07", Conn: c.Idx, T: now, RID: s.Method, Sig: sig,
 						Msg: fmt.Sprintf("request id=%d %s has no response at full quiescence", s.ID, s.Method)})
